@@ -79,3 +79,25 @@ char *verif_strncpy(char *dst, const char *src, size_t n)
 #define strncpy verif_strncpy
 #endif
 #endif
+#ifdef VERIF_STRLEN_MEMO
+#ifndef VERIF_STRLEN_MEMO_DEFINED
+#define VERIF_STRLEN_MEMO_DEFINED
+/* The model above admits ANY NUL position, independently at every call, so MIN(strlen(x), room) - two
+ * evaluations - can spuriously exceed the room.  Sound refinement: if the position returned by the previous
+ * call on the same pointer still holds a NUL, the first NUL is not after it. */
+static const char *g_sl_last;
+static size_t g_sl_n;
+static size_t verif_strlen_memo(const char *s)
+{
+	size_t n = verif_strlen(s);
+	size_t rem = __CPROVER_OBJECT_SIZE(s) - __CPROVER_POINTER_OFFSET(s);
+	if (s == g_sl_last && g_sl_n < rem && s[g_sl_n] == 0)
+		__CPROVER_assume(n <= g_sl_n);
+	g_sl_last = s;
+	g_sl_n = n;
+	return n;
+}
+#undef strlen
+#define strlen verif_strlen_memo
+#endif
+#endif
